@@ -172,6 +172,12 @@ func checkC08(c C08Case) (labels []string, nontrivial bool, err error) {
 		}
 	}
 	labels = append(labels, "mode:"+c.Mode, fmt.Sprintf("members:%d", len(c.Members)), fmt.Sprintf("bufio:%d", c.BufSrc))
+	for _, m := range c.Members {
+		if n := m.Data.Len(); n >= 65000 {
+			labels = append(labels, "member-payload-fills-the-output-window")
+			break
+		}
+	}
 	encs := map[string]bool{}
 	for _, m := range c.Members {
 		encs[m.Enc] = true
